@@ -60,16 +60,24 @@ func c15Validate(data []byte) (int, string) {
 
 func init() {
 	core.RegisterHelper("c15put", func(args []string) int {
-		// c15put <dir> <path> <rounds> <size> <chunk> <atomic 0|1>
+		// c15put <dir> <path> <rounds> <size> <chunk> <atomic 0|1> [<view prefix>]
+		// with a view prefix the put goes through a prefix-mapped view of the disk bucket (the way the module
+		// store reaches its files); <path> is then relative to the view
 		dir, path := args[0], args[1]
 		rounds, _ := strconv.Atoi(args[2])
 		size, _ := strconv.Atoi(args[3])
 		chunk, _ := strconv.Atoi(args[4])
 		atomicPut := args[5] == "1"
+		var b storage.ReadWriteBucket
 		b, err := storageos.NewProvider().NewReadWriteBucket(dir)
 		if err != nil {
 			fmt.Fprintln(os.Stderr, err)
 			return 3
+		}
+		if len(args) > 6 && args[6] != "" {
+			for _, prefix := range strings.Split(args[6], ",") {
+				b = storage.MapReadWriteBucket(b, storage.MapOnPrefix(prefix))
+			}
 		}
 		ctx := context.Background()
 		for v := 1; v <= rounds; v++ {
@@ -124,7 +132,13 @@ func c15Kill(c *core.C, idx int) {
 	defer os.RemoveAll(dir)
 	path := "sub/obj.bin"
 	full := filepath.Join(dir, path)
-	args := []string{"helper", "c15put", dir, path, strconv.Itoa(rounds), strconv.Itoa(size), strconv.Itoa(chunk), "1"}
+	// every other case writes through a prefix-mapped view (idx 1, 3, 5 …): atomicity must survive the combinators
+	childPath, view := path, ""
+	if idx%2 == 1 {
+		childPath, view = "obj.bin", "sub"
+		c.Count("kill_cases_through_mapped_view", 1)
+	}
+	args := []string{"helper", "c15put", dir, childPath, strconv.Itoa(rounds), strconv.Itoa(size), strconv.Itoa(chunk), "1", view}
 	reset := func() {
 		os.RemoveAll(filepath.Join(dir, "sub"))
 		os.MkdirAll(filepath.Join(dir, "sub"), 0o755)
@@ -197,7 +211,7 @@ func c15Kill(c *core.C, idx int) {
 			wg.Wait()
 			c.Eval(1)
 			c.Count("kill_runs", 1)
-			key := fmt.Sprintf("kill=%s:%d size=%d chunk=%d", point, k, size, chunk)
+			key := fmt.Sprintf("kill=%s:%d size=%d chunk=%d view=%q", point, k, size, chunk, view)
 			c.Distinct("kill_points", fmt.Sprintf("%s:%d/size=%d/chunk=%d", point, k, size, chunk))
 			killed := false
 			if ee, ok := werr.(*exec.ExitError); ok {
